@@ -36,7 +36,7 @@ Proof.
   induction fuel as [|f IH]; intros; cbn [ps_obs_copy]; [constructor|].
   apply ps_disc0_bind; [apply ps_obs_read_d0|].
   intros [r|]; [|constructor].
-  destruct (ps_beq (ob_key r) skip); [apply IH|].
+  destruct (ps_beq (pso_key r) skip); [apply IH|].
   apply ps_disc0_bind; [apply ps_obs_write_d0|].
   intros [|]; [apply IH|constructor].
 Qed.
@@ -46,7 +46,7 @@ Proof.
   induction fuel as [|f IH]; intros; cbn [ps_dyn_copy]; [constructor|].
   apply ps_disc0_bind; [apply ps_dyn_read_d0|].
   intros [r|]; [|constructor].
-  destruct (ps_beq name (dy_name r)); [apply IH|].
+  destruct (ps_beq name (psd_name r)); [apply IH|].
   apply ps_disc0_bind; [apply ps_dyn_write_d0|].
   intros [|]; [apply IH|constructor].
 Qed.
